@@ -103,13 +103,18 @@ func runC17(r *core.Run) {
 		seeds = 8
 	}
 	for s := 0; s < seeds; s++ {
-		for _, n := range []int{100, 2000, 30000, 500000} {
+		for _, n := range []int{100, 2000, 30000, 48 << 10, 1<<16 - 1, 1 << 16, 500000, 1<<20 - 1, 1 << 20} {
 			for m := 0; m < 2; m++ {
 				for _, dc := range []int{1 << 16, 1 << 20} {
 					if n > dc {
 						continue
 					}
-					if m == 1 && n > 30000 && !th {
+					// |X| = DictCap and DictCap-1: the second copy lies exactly at the window edge;
+					// 2|X| > DictCap+BufSize: the encoder ring buffer wraps between the copies
+					if m == 1 && n > 1<<16 && !th {
+						continue
+					}
+					if n >= 500000 && s > 1 && !th {
 						continue
 					}
 					api := "xz"
